@@ -37,6 +37,8 @@ import (
 	"golang.org/x/net/context"
 )
 
+const headerRange = "Range"
+
 var (
 	noCacheReg = regexp.MustCompile(`no-cache|no-store|private`)
 	sMaxAgeReg = regexp.MustCompile(`s-maxage=(\d+)`)
@@ -110,6 +112,7 @@ func NewProxy(s *server) elton.Handler {
 
 		reqHeader := c.Request.Header
 		var ifModifiedSince, ifNoneMatch string
+		var httpRange string
 		status := getCacheStatus(c)
 		// 针对fetching的请求，由于其最终状态未知，因此需要删除有可能导致304的请求，避免无法生成缓存
 		if status == cache.StatusFetching {
@@ -120,6 +123,11 @@ func NewProxy(s *server) elton.Handler {
 			}
 			if ifNoneMatch != "" {
 				reqHeader.Del(elton.HeaderIfNoneMatch)
+			}
+			// range请求会导致upstream响应206（部分数据），同样需要删除，避免将部分数据缓存
+			httpRange = reqHeader.Get(headerRange)
+			if httpRange != "" {
+				reqHeader.Del(headerRange)
 			}
 		}
 
@@ -173,6 +181,9 @@ func NewProxy(s *server) elton.Handler {
 		}
 		if ifNoneMatch != "" {
 			reqHeader.Set(elton.HeaderIfNoneMatch, ifNoneMatch)
+		}
+		if httpRange != "" {
+			reqHeader.Set(headerRange, httpRange)
 		}
 		if acceptEncodingChanged {
 			reqHeader.Set(elton.HeaderAcceptEncoding, acceptEncoding)
